@@ -289,6 +289,39 @@ def checker (model : Bool) : Checker where
                 | some iv => (st', some s!"concurrent calls: interval {iv} outside [{cfg.initial},{cfg.max}]")
                 | none => (st', none)
           | _, _, _ => (st, some "bad-observation")
+        | ["burst", _, _, _] =>
+          -- rounds × (fresh strategy of this configuration, g goroutines released together, k calls each):
+          -- gmin/gmax = fewest/most grants seen in one round of n calls; ivmin/ivmax = extreme granted intervals
+          match fieldNat obs "n", fieldNat obs "gmin", fieldNat obs "gmax" with
+          | some n, some gmin, some gmax =>
+            let hist := (field obs "hist").getD ""
+            let ivmin := fieldInt obs "ivmin"
+            let ivmax := fieldInt obs "ivmax"
+            if model then
+              -- the transition system from the initial state: counter values 1..n are handed out once each
+              let rs := (List.range n).map fun (j : Nat) => wrap32 (Core.init.retries + 1 + (j : Int))
+              let granted := rs.filter (budgetOk cfg)
+              let want := granted.length
+              let producible (iv : Int) : Bool := match cfg.kind with
+                | .fixed => iv == cfg.initial
+                | .exp => iv == cfg.max || granted.any fun r => rawInterval cfg r == iv && !capHit cfg iv
+              if gmin ≠ want ∨ gmax ≠ want then
+                (st, some s!"a round of {n} simultaneous calls granted {if gmax ≠ want then gmax else gmin}, the model grants {want} under every interleaving (rounds by grants: {hist})")
+              else if want > 0 ∧ (ivmin.isNone ∨ ivmax.isNone) then (st, some "bad-observation")
+              else if want > 0 ∧ !(producible (ivmin.getD 0) && producible (ivmax.getD 0)) then
+                (st, some s!"granted interval {ivmin.getD 0}..{ivmax.getD 0} is not producible by the model")
+              else (st, none)
+            else
+              let want := Spec.grants cfg.maxRetries n
+              if gmax > want then
+                (st, some s!"a round of {n} simultaneous Next calls on a fresh strategy granted {gmax} retries, budget {cfg.maxRetries} allows exactly {want} (rounds by grants: {hist})")
+              else if gmin < want then
+                (st, some s!"a round of {n} simultaneous Next calls on a fresh strategy granted only {gmin} retries, exactly {want} are due (rounds by grants: {hist})")
+              else if want > 0 ∧ (ivmin.isNone ∨ ivmax.isNone) then (st, some "bad-observation")
+              else if want > 0 ∧ ((ivmin.getD 0) < cfg.initial ∨ (ivmax.getD 0) > cfg.max) then
+                (st, some s!"simultaneous callers: interval outside [{cfg.initial},{cfg.max}]: {ivmin.getD 0}..{ivmax.getD 0}")
+              else (st, none)
+          | _, _, _ => (st, some "bad-observation")
         | ["race3", _] =>
           -- three goroutines, one call each on a fresh strategy of this configuration, repeated;
           -- `bad` is the first returned interval outside [initial, max] (or `-`)
@@ -314,8 +347,9 @@ def checker (model : Bool) : Checker where
               match retryModel cfg st.core fails ckind o with
               | some msg => (resync (st.calls + m), some msg)
               | none =>
-                if obsCore obs ≠ some core' then (resync (st.calls + m), some s!"state want retries={core'.retries} flag={core'.flag}")
-                else ({ st with core := core', calls := st.calls + m }, none)
+                -- the white-box counter/flag are compared on the strategy lines (next/burn/conc) of the
+                -- `next` part; here the strategy is checked through what Retry saw it return
+                ({ st with core := core', calls := st.calls + m }, none)
             else
               ({ st with calls := st.calls + m }, retrySpec cfg st.calls fails ckind o)
           | _, _ => (st, some "bad-observation")
